@@ -331,6 +331,8 @@ def run(facts, tier):
     r13_3c_everywhere(facts, res)
     r13_5(facts, res)
     r13_7(facts, res)
+    from props import c15
+    c15.r15_3(facts, res, "R13-9")     # invalid-character errors of the factories
     import borrowck
     borrowck.rule(facts, res, "R13-8", reach, floor=10)
     # index-size errors of the data setters: the bounds guards of C16 (offset > length raises, a count past the end is clipped)
